@@ -10,6 +10,10 @@ package main
 //	plain       `sleep 30`                              ends at once, canceled
 //	ignoreterm  `trap "" TERM; sleep 8`, MaxCleanUpTime=1s  must be force-killed: the run ends ~1 s (+ poll) after the stop
 //	group       `sleep 30 & echo $! > pidfile; wait`    the forked child must not survive the stop
+//	httpsos     step with `signalOnStop: SIGINT` running `trap "" INT; sleep 9`, MaxCleanUpTime=1s, onExit handler; the stop
+//	            arrives over the agent's socket handler (POST /stop through Agent.HandleHTTP, i.e. with allowOverride):
+//	            the first signal is swapped to SIGINT and ignored; the force-kill after MaxCleanUpTime must be a real
+//	            SIGKILL: the run ends ~1 s (+ poll) after the stop, canceled, onExit ran
 //	orphan      `sleep 12 & echo $! > pidfile; exit 0`  the shell has exited, its background child still holds the step's
 //	                                                    output (the step is still running: Wait blocks until the pipe
 //	                                                    closes); the stop arrives after the shell's exit: the signal
@@ -17,6 +21,7 @@ package main
 import (
 	"context"
 	"fmt"
+	"net/http/httptest"
 	"os"
 	"path/filepath"
 	"strings"
@@ -44,6 +49,7 @@ type AgentStop struct {
 	Status      string `json:"status"`
 	Err         string `json:"err"`
 	ChildAlive  bool   `json:"child_alive"`
+	ExitRan     bool   `json:"exit_ran"` // the onExit handler ran (httpsos)
 	Hung        bool   `json:"hung"`
 	Infra       string `json:"infra,omitempty"`
 }
@@ -69,6 +75,8 @@ func runAgentStop(work string, k int, sub string, sleepS, cleanupS int) AgentSto
 		body = fmt.Sprintf("trap '' TERM\necho x > %s\nsleep %d", marker, sleepS)
 	case "group":
 		body = fmt.Sprintf("sleep %d &\necho $! > %s\necho x > %s\nwait", sleepS, pidfile, marker)
+	case "httpsos":
+		body = fmt.Sprintf("trap '' INT\necho x > %s\nsleep %d", marker, sleepS)
 	case "orphan":
 		body = fmt.Sprintf("sleep %d &\necho $! > %s\necho x > %s\nexit 0", sleepS, pidfile, marker)
 	}
@@ -78,6 +86,10 @@ func runAgentStop(work string, k int, sub string, sleepS, cleanupS int) AgentSto
 	}
 	name := fmt.Sprintf("as%d%s", k, sub)
 	yaml := fmt.Sprintf("name: %s\nmaxCleanUpTimeSec: %d\nsteps:\n  - name: s1\n    command: sh %s\n", name, cleanupS, script)
+	exitMarker := filepath.Join(dir, "exit-ran")
+	if sub == "httpsos" {
+		yaml += fmt.Sprintf("    signalOnStop: SIGINT\nhandlerOn:\n  exit:\n    command: touch %s\n", exitMarker)
+	}
 	file := filepath.Join(dir, "dags", name+".yaml")
 	if err := os.WriteFile(file, []byte(yaml), 0o644); err != nil {
 		res.Infra = err.Error()
@@ -109,7 +121,16 @@ func runAgentStop(work string, k int, sub string, sleepS, cleanupS int) AgentSto
 	}
 	t0 := time.Now()
 	sigDone := make(chan struct{})
-	go func() { agt.Signal(syscall.SIGTERM); close(sigDone) }()
+	if sub == "httpsos" { // what the socket server calls for `blackdagger stop` / the web UI
+		rec := httptest.NewRecorder()
+		agt.HandleHTTP(rec, httptest.NewRequest("POST", "/stop", nil))
+		if rec.Code != 200 {
+			res.Infra = fmt.Sprintf("POST /stop answered %d", rec.Code)
+		}
+		close(sigDone)
+	} else {
+		go func() { agt.Signal(syscall.SIGTERM); close(sigDone) }()
+	}
 	select {
 	case err := <-done:
 		if err != nil {
@@ -126,6 +147,9 @@ func runAgentStop(work string, k int, sub string, sleepS, cleanupS int) AgentSto
 		res.SignalRetMs = -1
 	}
 	res.Status = agt.Status().Status.String()
+	if _, err := os.Stat(exitMarker); err == nil {
+		res.ExitRan = true
+	}
 	if b, err := os.ReadFile(pidfile); err == nil {
 		var pid int
 		fmt.Sscanf(strings.TrimSpace(string(b)), "%d", &pid)
@@ -171,7 +195,7 @@ func agentStopMain(outPath, work string) {
 		sleepS, cleanup int
 	}
 	jobs := []job{{"plain", 30, 5}, {"group", 30, 5}, {"ignoreterm", 9, 1}, {"plain", 30, 1}, {"group", 30, 1}, {"ignoreterm", 9, 1},
-		{"orphan", 12, 5}, {"orphan", 12, 1}}
+		{"orphan", 12, 5}, {"orphan", 12, 1}, {"httpsos", 9, 1}}
 	res := make([]AgentStop, len(jobs))
 	var wg sync.WaitGroup
 	for k, j := range jobs {
